@@ -45,8 +45,6 @@ var panicForeignReviewed = map[string]string{
 	"testObjectCoercible|string|default-of-switch(valueKind:.kind)":                             "covers every kind except the completion record valueResult, which is never passed as a this/argument value",
 	"(*objectStash).createBinding|string|":                                                      "stasher protocol: callers test hasBinding first",
 	"(*dclStash).createBinding|error(Errorf)|":                                                  "stasher protocol: callers test hasBinding first",
-	"(*dclStash).setBinding|error(Errorf)|":                                                     "stasher protocol: callers test hasBinding first",
-	"(*dclStash).getBinding|error(Errorf)|":                                                     "stasher protocol: references are created only for existing bindings",
 	"getStashProperties|string|default-of-typeswitch(stasher)":                                  "covers the three stasher implementations (debugger helper, host-side)",
 	"arrayDefineOwnProperty|string|":                                                            "array length is a data property by construction (newArrayObject) and 15.4.5.1 never lets it become an accessor",
 	"sameValue|string|default-of-switch(valueKind:.kind)":                                       "operands are script-visible values: one of the six ES5 kinds",
